@@ -144,8 +144,8 @@ func c06run(out *evid.Out, f *evid.Flags, run int) {
 	r := rng.New(f.Seed, 0xc06, uint64(run))
 	// destination kind cycles fastest; the other parameters are decoded from the remaining digits of the run
 	// number so that no two of them are tied together
-	const nDest = 7
-	destKind := run % nDest // 0 plain, 1 SyncWriter(LevelWriter), 2 Multi of two, 3 ConsoleWriter literal, 4 log.Logger global, 5 NewConsoleWriter(...), 6 SyncWriter(plain io.Writer)
+	const nDest = 8
+	destKind := run % nDest // 0 plain, 1 SyncWriter(LevelWriter), 2 Multi of two, 3 ConsoleWriter literal, 4 log.Logger global, 5 NewConsoleWriter(...), 6 SyncWriter(plain io.Writer), 7 ConsoleWriter{Out: SyncWriter(...)}: SyncWriter reached through its plain Write
 	q := run / nDest
 	G := []int{4, 32}[q%2]
 	K := 40 + r.Intn(60)
@@ -160,7 +160,7 @@ func c06run(out *evid.Out, f *evid.Flags, run int) {
 	}
 	old := runtime.GOMAXPROCS(procs)
 	defer runtime.GOMAXPROCS(old)
-	withSampler := r.Chance(1, 3) && destKind != 3 && destKind != 5
+	withSampler := r.Chance(1, 3) && destKind != 3 && destKind != 5 && destKind != 7
 	samplerKind := r.Intn(2) // 0: BasicSampler{3}; 1: LevelSampler -> BurstSampler that admits everything (atomics under contention)
 	st := gen.DefaultSettings()
 	st.GlobalLevel = zerolog.TraceLevel
@@ -218,6 +218,9 @@ func c06run(out *evid.Out, f *evid.Flags, run int) {
 		case 6:
 			a := newW6("sync-plain", false, delay, viol)
 			return zerolog.SyncWriter(plainOnly6{a}), []*cw6{a}
+		case 7:
+			a := newW6("console-over-sync", true, delay, viol)
+			return zerolog.ConsoleWriter{Out: zerolog.SyncWriter(a), NoColor: true, TimeFormat: time.RFC3339, TimeLocation: time.UTC}, []*cw6{a}
 		case 5:
 			a := newW6("newconsole-out", true, delay, viol)
 			return zerolog.NewConsoleWriter(func(w *zerolog.ConsoleWriter) {
@@ -271,7 +274,7 @@ func c06run(out *evid.Out, f *evid.Flags, run int) {
 		case 2:
 			capW[0], capW[1] = &capture6{m: map[string][]byte{}}, &capture6{m: map[string][]byte{}}
 			root = zerolog.MultiLevelWriter(capW[0], capW[1])
-		case 3, 5:
+		case 3, 5, 7:
 			capW[0] = &capture6{m: map[string][]byte{}, console: true}
 			root = zerolog.ConsoleWriter{Out: capW[0], NoColor: true, TimeFormat: time.RFC3339, TimeLocation: time.UTC}
 		default:
@@ -403,7 +406,7 @@ func c06run(out *evid.Out, f *evid.Flags, run int) {
 				viol("sampler-share", fmt.Sprintf("[%s] shared sampler (kind %d): %d of %d events delivered, expected %d", rc.name, samplerKind, admitted, sampledIssued, want))
 			}
 		}
-		if (destKind == 1 || destKind == 6) && rc.maxInfl > 1 {
+		if (destKind == 1 || destKind == 6 || destKind == 7) && rc.maxInfl > 1 {
 			viol("syncwriter-overlap", fmt.Sprintf("a writer wrapped in SyncWriter saw %d overlapping calls", rc.maxInfl))
 		}
 		if rc.maxInfl > 1 {
